@@ -13,7 +13,7 @@ def csName : CS → String | .test => "test" | .rmPid => "rmPid" | .relLock => "
 def hsName : HS → String | .write => "write" | .test => "test" | .rmPid => "rmPid" | .relLock => "relLock" | .exit => "exit"
 def locName : Loc → String
   | .init => "init" | .reg => "reg" | .term => "term" | .pre => "pre" | .tryLock => "tryLock"
-  | .locked => "locked" | .rmFailed => "rmFailed" | .setStarted => "setStarted" | .body k => s!"body:{k}"
+  | .locked => "locked" | .rmFailed => "rmFailed" | .setStarted => "setStarted" | .callBody => "callBody" | .body k => s!"body:{k}"
   | .bodyDone => "bodyDone" | .restTerm => "restTerm" | .restInt => "restInt" | .sysExit => "sysExit"
   | .touch => "touch" | .reraise => "reraise" | .skipped => "skipped"
   | .herr h _ => s!"herr:{hsName h}"
